@@ -6,7 +6,8 @@
 (*   net/ntske/ntske_ip.go    dialTLS (ALPN check), exchangeDataTLS        *)
 (*   net/ntske/ntske_scion.go dialQUIC, exchangeDataQUIC                   *)
 (*   net/ntske/ntske.go       ReadData (record loop), ExportKeys           *)
-(*   core/client/client_ip.go destination of the NTP request that follows  *)
+(*   core/client/client_ip.go    destination of the NTP request that       *)
+(*   core/client/client_scion.go follows (see "Where the request goes")    *)
 (* against an arbitrary key-exchange peer (property C20).                  *)
 (*                                                                         *)
 (* The client is sequential; the environment is the peer, which chooses an *)
@@ -60,6 +61,24 @@
 (*             "abandons": (specification self-test) the call fails at the *)
 (*                         deadline, but a reader left behind keeps        *)
 (*                         parsing what arrives later into Fetcher.data    *)
+(*   StaleNextHop  FALSE: the SCION client derives the underlay next hop   *)
+(*                        of its request from remoteAddr.Host AFTER the    *)
+(*                        exchange result has been assigned to it          *)
+(*                 TRUE : (specification self-test) the next hop is the    *)
+(*                        host and port the client was configured with     *)
+(*                                                                         *)
+(* Where the request goes.  FetchData is called by the NTP client that is  *)
+(* about to send a request: measureClockOffsetIP (Transport "tls": key     *)
+(* exchange over TLS, NTP over UDP/IP) or measureClockOffsetSCION          *)
+(* (Transport "quic": key exchange over QUIC/SCION, NTP over UDP/SCION).   *)
+(* Both are called with the CONFIGURED remote address (host, CfgPort) and  *)
+(* overwrite it with (Data.Server, Data.Port).  An IP datagram has one     *)
+(* destination.  A SCION datagram has two: the SCION destination host and  *)
+(* UDP port written into it, and the underlay address it is handed to      *)
+(* (path.UnderlayNextHop()).  Client and server are in the same ISD-AS     *)
+(* (empty path): the client rebuilds the path with the remote host itself  *)
+(* as next hop.  (Between ASes the next hop is the border router the path  *)
+(* names: not modelled, the binding has no SCION daemon.)                  *)
 (***************************************************************************)
 EXTENDS Integers, Sequences, FiniteSets, TLC
 
@@ -75,7 +94,8 @@ CONSTANTS Transport,            \* "tls" | "quic"
           MaxCalls,             \* FetchData calls           (model checking bound)
           MaxStore,             \* StoreCookie calls         (model checking bound)
           CtxMode,              \* "ignored" | "returns" | "abandons"
-          MaxStalls             \* stalls past the deadline  (model checking bound)
+          MaxStalls,            \* stalls past the deadline  (model checking bound)
+          StaleNextHop
 
 \* "ntske/1": the peer selects the offered protocol; "none": it completes the
 \* handshake without selecting a protocol; "other": it insists on a protocol the
@@ -98,12 +118,17 @@ AlgX  == 16
 PortA == 4001
 PortB == 4002
 StdPort == IF Transport = "quic" THEN 10123 ELSE 123   \* ntp.ServerPortSCION / ServerPortIP
+\* the network the NTP request travels on, and the port of the remote address the
+\* NTP client is configured with (its host is the key-exchange host)
+Net == IF Transport = "quic" THEN "scion" ELSE "ip"
+CfgPort == 4003
 
 ASSUME /\ Transport \in {"tls", "quic"}
        /\ CtxMode \in {"ignored", "returns", "abandons"}
        /\ Alpns \subseteq AllAlpns /\ Alphabet \subseteq AllRecs /\ CutRecs \subseteq AllRecs
        \* QUIC cannot complete a handshake without an agreed application protocol
        /\ Transport = "quic" => "none" \notin Alpns
+       /\ StaleNextHop \in BOOLEAN
 
 C2S(s) == 2 * s
 S2C(s) == 2 * s + 1
@@ -181,7 +206,9 @@ VARIABLES data,    \* Fetcher.data
           sv,      \* the peer's side of the current / last exchange (see Sv0)
           ret,     \* the last return of FetchData: [ok, exch (it ran an exchange), prevok (ok of
                    \*   the call before), data (the Data returned)]
-          dest,    \* where the NTP request built from that return goes (client_ip.go)
+          dest,    \* where the NTP request built from that return goes: [sent, net ("ip" | "scion"),
+                   \*   server, port (the destination written into the datagram), hop (the underlay
+                   \*   address the datagram is handed to: [server, port])]
           good,    \* ghost: the cached data stem from a successful exchange (namely session sess)
           gpool,   \* ghost: the cookies issued to this client and not yet used, in order
           ctx,     \* "live" | "expired": the deadline of the current call's context
@@ -193,7 +220,8 @@ VARIABLES data,    \* Fetcher.data
 
 vars == <<data, conn, sess, sv, ret, dest, good, gpool, ctx, pend, late, ncalls, ndials, nstore, nstalls>>
 
-NoDest == [sent |-> FALSE, server |-> "", port |-> 0]
+NoHop  == [server |-> "", port |-> 0]
+NoDest == [sent |-> FALSE, net |-> "-", server |-> "", port |-> 0, hop |-> NoHop]
 Ret0   == [ok |-> TRUE, exch |-> TRUE, prevok |-> TRUE, data |-> Data0]
 NoPend == [w |-> "no", r |-> ""]
 NoLate == [open |-> FALSE, reader |-> FALSE]
@@ -210,11 +238,22 @@ Idle == conn \in {"none", "done", "failed"}
 \* there has arrived: the property speaks about the calls that FOLLOW)
 Quiet == Idle /\ ~late.open
 
-\* FetchData returns; the caller (measureClockOffsetIP) sends its request to
-\* (Data.Server, Data.Port)
+\* measureClockOffsetIP / measureClockOffsetSCION with the Data d that FetchData
+\* returned: remoteAddr (as configured: "host", CfgPort) is overwritten with
+\* (d.server, d.port); client_ip.go writes the datagram to remoteAddr;
+\* client_scion.go writes remoteAddr.Host into the SCION and UDP headers,
+\* rebuilds the intra-AS path with `NextHop: remoteAddr.Host` and hands the
+\* datagram to path.UnderlayNextHop()
+Send(d) ==
+  LET named == [server |-> d.server, port |-> d.port]
+      cfg   == [server |-> "host", port |-> CfgPort]
+  IN [sent |-> TRUE, net |-> Net, server |-> named.server, port |-> named.port,
+      hop |-> IF Net = "scion" /\ StaleNextHop THEN cfg ELSE named]
+
+\* FetchData returns; the caller sends its request
 Complete(ok, exch, d) ==
   /\ ret' = [ok |-> ok, exch |-> exch, prevok |-> ret.ok, data |-> d]
-  /\ dest' = IF ok THEN [sent |-> TRUE, server |-> d.server, port |-> d.port] ELSE NoDest
+  /\ dest' = IF ok THEN Send(d) ELSE NoDest
 
 \* exchangeKeys returns an error while Fetcher.data = d; FetchData returns (Data{}, err)
 FailExchange(d) ==
@@ -425,6 +464,7 @@ TypeOK ==
   /\ ctx \in {"live", "expired"} /\ pend.w \in {"no", "hdr", "body"}
   /\ late.open \in BOOLEAN /\ late.reader \in BOOLEAN /\ (late.reader => late.open)
   /\ late.open => conn = "failed"
+  /\ dest.net \in {"-", Net} /\ (dest.sent <=> dest.net = Net)
 
 \* A key exchange succeeds only if the peer negotiated ntske/1, selected
 \* AES-SIV-CMAC-256, supplied at least one cookie and ended the record stream
@@ -461,13 +501,17 @@ PoolIsIssued   == (Idle /\ good) => SameCookies(data.pool, gpool)
 PoolReturned   == (conn = "done" /\ ret.ok /\ ret.exch) => SameCookies(ret.data.pool, Issued(sess, sv.nck))
 
 \* NTP requests go to the server and port named in the exchange, by default to
-\* the key-exchange host and the standard NTP port.
+\* the key-exchange host and the standard NTP port - whatever the client was
+\* configured with.  "Go to": the endpoint the datagram is addressed to AND the
+\* endpoint it is handed to (over IP these are one and the same; over SCION,
+\* inside one AS, the underlay next hop is the destination host itself).
 NamedServers == IF sv.srvs = {} THEN {"host"} ELSE sv.srvs
 NamedPorts   == IF sv.ports = {} THEN {StdPort} ELSE sv.ports
-Destination ==
-  (Idle /\ ret.ok /\ good) =>
-     /\ ret.data.server \in NamedServers /\ ret.data.port \in NamedPorts
-     /\ dest.sent => (dest.server \in NamedServers /\ dest.port \in NamedPorts)
+Named(e) == e.server \in NamedServers /\ e.port \in NamedPorts
+DestReturned  == (Idle /\ ret.ok /\ good) => Named(ret.data)
+DestAddressed == (Idle /\ ret.ok /\ good /\ dest.sent) => Named(dest)
+DestHandedTo  == (Idle /\ ret.ok /\ good /\ dest.sent) => Named(dest.hop)
+Destination == DestReturned /\ DestAddressed /\ DestHandedTo
 
 \* A failed exchange leaves nothing behind that a later request would use: a call
 \* that follows a failed one and returns data has run a complete exchange of its own.
